@@ -170,6 +170,7 @@ func ExecAndValidate(run *core.Run, scripts []Script, o ExecOpts) *Outcome {
 			return out
 		}
 		run.AddTLC(v.Res)
+		run.Logf("validated %s: %d scripts, %d lines, accepted=%v highwater=%d, %d states, %.1fs", o.Name, len(segs), total, v.Accepted, v.HighWater, v.Res.Distinct, v.Res.Wall.Seconds())
 		if v.Accepted {
 			out.Accepted += len(segs)
 			run.AddTraces(len(segs))
